@@ -130,6 +130,7 @@ func runBubble(t *testing.T, f PropFunc, ch *simrt.Choices, resp *Result, tier, 
 		defer s.Uninstall()
 		e := &Env{T: t, S: s, C: ch, R: res, Tier: tier, Dir: dir, start: time.Now(), ev: &fnvLog{}, Knob: map[string]int{}}
 		shortReadEnv = nil
+		simrt.ResetPools()
 		func() {
 			defer func() {
 				if r := recover(); r != nil {
